@@ -170,6 +170,16 @@ pub struct FatVolume {
     pub(crate) fat_specific_info: FatSpecificInfo,
 }
 
+/// Outcome of looking for a directory entry in one block of a directory.
+enum BlockSearch<T> {
+    /// The entry is in this block
+    Found(T),
+    /// The entry is not in this block, but the directory carries on
+    NotInBlock,
+    /// We hit the end-of-directory marker; no later block holds live entries
+    EndOfDirectory,
+}
+
 impl FatVolume {
     /// Write a new entry in the FAT
     pub fn update_info_sector<D>(
@@ -829,9 +839,11 @@ impl FatVolume {
                             FatType::Fat16,
                             match_name,
                             block,
-                        ) {
-                            Err(Error::NotFound) => continue,
-                            x => return x,
+                        )? {
+                            BlockSearch::Found(entry) => return Ok(entry),
+                            BlockSearch::NotInBlock => continue,
+                            // nothing is allocated after the end marker
+                            BlockSearch::EndOfDirectory => return Err(Error::NotFound),
                         }
                     }
                     if cluster != ClusterId::ROOT_DIR {
@@ -861,9 +873,11 @@ impl FatVolume {
                             FatType::Fat32,
                             match_name,
                             block,
-                        ) {
-                            Err(Error::NotFound) => continue,
-                            x => return x,
+                        )? {
+                            BlockSearch::Found(entry) => return Ok(entry),
+                            BlockSearch::NotInBlock => continue,
+                            // nothing is allocated after the end marker
+                            BlockSearch::EndOfDirectory => return Err(Error::NotFound),
                         }
                     }
                     current_cluster = match self.next_cluster(block_cache, cluster) {
@@ -883,7 +897,7 @@ impl FatVolume {
         fat_type: FatType,
         match_name: &ShortFileName,
         block_idx: BlockIdx,
-    ) -> Result<DirEntry, Error<D::Error>>
+    ) -> Result<BlockSearch<DirEntry>, Error<D::Error>>
     where
         D: BlockDevice,
     {
@@ -893,15 +907,17 @@ impl FatVolume {
             let dir_entry = OnDiskDirEntry::new(dir_entry_bytes);
             if dir_entry.is_end() {
                 // Can quit early
-                break;
+                return Ok(BlockSearch::EndOfDirectory);
             } else if dir_entry.is_valid() && !dir_entry.is_lfn() && dir_entry.matches(match_name) {
                 // Found it
                 // Block::LEN always fits on a u32
                 let start = (i * OnDiskDirEntry::LEN) as u32;
-                return Ok(dir_entry.get_entry(fat_type, block_idx, start));
+                return Ok(BlockSearch::Found(
+                    dir_entry.get_entry(fat_type, block_idx, start),
+                ));
             }
         }
-        Err(Error::NotFound)
+        Ok(BlockSearch::NotInBlock)
     }
 
     /// Delete an entry from the given directory
@@ -938,14 +954,16 @@ impl FatVolume {
                 while let Some(cluster) = current_cluster {
                     // Scan the cluster / root dir a block at a time
                     for block_idx in first_dir_block_num.range(dir_size) {
-                        match self.delete_entry_in_block(block_cache, match_name, block_idx) {
-                            Err(Error::NotFound) => {
+                        match self.delete_entry_in_block(block_cache, match_name, block_idx)? {
+                            BlockSearch::NotInBlock => {
                                 // Carry on
                             }
-                            x => {
-                                // Either we deleted it OK, or there was some
-                                // catastrophic error reading/writing the disk.
-                                return x;
+                            BlockSearch::Found(()) => {
+                                // We deleted it OK
+                                return Ok(());
+                            }
+                            BlockSearch::EndOfDirectory => {
+                                return Err(Error::NotFound);
                             }
                         }
                     }
@@ -978,15 +996,17 @@ impl FatVolume {
                     for block_idx in
                         start_block_idx.range(BlockCount(u32::from(self.blocks_per_cluster)))
                     {
-                        match self.delete_entry_in_block(block_cache, match_name, block_idx) {
-                            Err(Error::NotFound) => {
+                        match self.delete_entry_in_block(block_cache, match_name, block_idx)? {
+                            BlockSearch::NotInBlock => {
                                 // Carry on
                                 continue;
                             }
-                            x => {
-                                // Either we deleted it OK, or there was some
-                                // catastrophic error reading/writing the disk.
-                                return x;
+                            BlockSearch::Found(()) => {
+                                // We deleted it OK
+                                return Ok(());
+                            }
+                            BlockSearch::EndOfDirectory => {
+                                return Err(Error::NotFound);
                             }
                         }
                     }
@@ -1013,7 +1033,7 @@ impl FatVolume {
         block_cache: &mut BlockCache<D>,
         match_name: &ShortFileName,
         block_idx: BlockIdx,
-    ) -> Result<(), Error<D::Error>>
+    ) -> Result<BlockSearch<()>, Error<D::Error>>
     where
         D: BlockDevice,
     {
@@ -1025,16 +1045,17 @@ impl FatVolume {
             let dir_entry = OnDiskDirEntry::new(dir_entry_bytes);
             if dir_entry.is_end() {
                 // Can quit early
-                break;
+                return Ok(BlockSearch::EndOfDirectory);
             } else if dir_entry.is_valid() && !dir_entry.is_lfn() && dir_entry.matches(match_name) {
                 let start = i * OnDiskDirEntry::LEN;
                 // set first byte to the 'unused' marker
                 block[start] = 0xE5;
                 trace!("Updating directory");
-                return block_cache.write_back().map_err(Error::DeviceError);
+                block_cache.write_back().map_err(Error::DeviceError)?;
+                return Ok(BlockSearch::Found(()));
             }
         }
-        Err(Error::NotFound)
+        Ok(BlockSearch::NotInBlock)
     }
 
     /// Finds the next free cluster after the start_cluster and before end_cluster
